@@ -81,7 +81,7 @@ FocusTable == [
   escape   |-> [p |-> <<"dq", "bs">>, n |-> 2, m |-> 3,
                 a |-> {"xc", "uc", "Uc", "0", "1", "h", "a", "X2", "U4", "U4s", "U8", "U8s", "U8big", "U8huge", "dq", "w", "lf",
                        "sp", "/", "_", "bs", "tab", "u", "nd", "9"}],
-  hex      |-> [p |-> <<"dq", "bs">>, n |-> 4, m |-> 5, a |-> {"xc", "uc", "0", "1", "h", "dq", "-", "_", "nd"}],
+  hex      |-> [p |-> <<"dq", "bs">>, n |-> 3, m |-> 5, a |-> {"xc", "uc", "0", "1", "h", "dq", "-", "_", "nd"}],
   squote   |-> [p |-> <<"'">>, n |-> 3, m |-> 5, a |-> {"w", "sp", "lf", "dq", "bs", "'", ".", "-", "cr"}],
   yamldir  |-> [p |-> <<"%", "YAML", "sp">>, n |-> 3, m |-> 4, a |-> {"1", "2", "0", ".", "sp", "lf", "#", "w", "DBIG", "u", "nd", "-", "+", "_"}],
   dir      |-> [p |-> <<"%">>, n |-> 3, m |-> 4, a |-> {"YAML", "TAG", "w", "sp", "lf", "!", "1", ".", "-", "#", "P1", "u", "tab"}],
